@@ -1152,6 +1152,29 @@ def callback_checked(body, src, depth=0):
     return safe_seq(parse_stmts(body))
 
 
+def text_import_read(vm):
+    """vmops.hpp VMOps::FindVarImport: every value handed back (`*result = …`) is read by GetField / GetFieldByName
+    with `<frame>.Sandboxed` among the arguments; no unchecked reader (GetOwnField, GetField(fid)) is used."""
+    m = re.search(r"\bbool\s+FindVarImport\s*\(\s*ScriptFrame\s*&\s*(\w+)", vm)
+    if not m:
+        raise Lost("vmops.hpp: VMOps::FindVarImport(ScriptFrame&, …) not found")
+    fv = m.group(1)
+    b0 = vm.index("{", match_close(vm, vm.index("(", m.start()), "(", ")"))
+    fb = vm[b0:match_close(vm, b0)]
+    reads = re.findall(r"\*\s*result\s*=\s*([^;]*);", fb)
+    ok = bool(reads) and "GetOwnField" not in fb and "->GetField(" not in fb
+    for r in reads:
+        mm = re.match(r"\s*(?:VMOps::)?GetField\s*\(|\s*[\w\.\->\(\)]+->GetFieldByName\s*\(", r)
+        if not mm:
+            ok = False
+            continue
+        p0 = r.index("(", mm.end() - 1)
+        a = [norm_atom(x) for x in split_args(r[p0 + 1:match_close(r, p0, "(", ")")])]
+        if fv + ".Sandboxed" not in a:
+            ok = False
+    return ok
+
+
 def _setfield_only_under_init_dict(node, under=False):
     if node is None:
         return True
@@ -1277,24 +1300,21 @@ def extract(repo, build=None, cache=None, use_ast=True):
     t["scriptFunctionsUnsafe"] = len(args) <= 3 or resolve_bool(args[3], nb + "\n" + vm) is False
 
     # --- imports: VMOps::FindVarImport must read the imported name through GetField with the frame's sandbox flag
-    m = re.search(r"static\s+inline\s+bool\s+FindVarImport\s*\(\s*ScriptFrame\s*&\s*(\w+)", vm)
-    if not m:
-        raise Lost("vmops.hpp: VMOps::FindVarImport(ScriptFrame&, …) not found")
-    fv = m.group(1)
-    b0 = vm.index("{", match_close(vm, vm.index("(", m.start()), "(", ")"))
-    fb = vm[b0:match_close(vm, b0)]
-    reads = re.findall(r"\*\s*result\s*=\s*([^;]*);", fb)
-    ok = bool(reads) and "GetOwnField" not in fb and "->GetField(" not in fb
-    for r in reads:
-        mm = re.match(r"\s*(?:VMOps::)?GetField\s*\(|\s*[\w\.\->]+->GetFieldByName\s*\(", r)
-        if not mm:
-            ok = False
+    t["importReadSandboxed"] = text_import_read(vm)
+
+    # --- where the sandbox flag of a frame is assigned (evidence only — an assignment of `false` can be legitimate for
+    # a trusted frame, so this never alarms; the auto-complete / execute / event / filter sites are DRIVEN by the harness)
+    sites = []
+    for f in sorted(glob.glob(os.path.join(repo, "lib", "**", "*.[ch]pp"), recursive=True)):
+        try:
+            raw = open(f, encoding="utf-8", errors="replace").read()
+        except OSError:
             continue
-        p0 = r.index("(", mm.end() - 1)
-        a = [norm_atom(x) for x in split_args(r[p0 + 1:match_close(r, p0, "(", ")")])]
-        if fv + ".Sandboxed" not in a:
-            ok = False
-    t["importReadSandboxed"] = ok
+        if "Sandboxed" not in raw:
+            continue
+        for mm in re.finditer(r"([\w\.\->]*Sandboxed)\s*=(?!=)\s*([^;]+);", strip_comments(raw)):
+            sites.append("%s: %s = %s" % (os.path.relpath(f, repo), mm.group(1), re.sub(r"\s+", " ", mm.group(2).strip())))
+    t["sandboxedAssignments"] = sites
 
     # --- natives: every `new [icinga::]Function("Ns#name", callback, args, flag…)` AFTER PREPROCESSING (so any
     # registration macro, wrapper macro or named constant for the flag reads the same); a file that cannot be
@@ -1399,6 +1419,8 @@ def selftest(use_ast=True, d=None):
         for k, b in get_reference_defs(src):
             if k == "IndexerExpression":
                 got["initDictOff"] = text_init_dict_off(b)
+        if "FindVarImport" in src and "importReadSandboxed" in exp:
+            got["importReadSandboxed"] = text_import_read(src)
         for _, b in bodies(src, re.compile(r"^Value\s+(Reference)::Get\s*\(\s*\)\s*const\s*\{", re.M)):
             m = re.search(r"GetFieldByName\s*\(", b)
             p0 = b.index("(", m.end() - 1)
